@@ -205,6 +205,9 @@ class DATADumpFile(DATADump):
 	def append_msg(self, msg):
 		# Generate raw bytes and write
 		msg_raw = self.dump_msg(msg)
+		# An already opened file object (not in append mode) may have been
+		# left in the middle of the capture by a previous read
+		self.f.seek(0, 2)
 		self.f.write(msg_raw)
 
 	# Writes a list of messages at the end of the capture
